@@ -7,12 +7,17 @@ import copy
 import importlib
 
 
+def re_match(pat, s):
+    import re
+    return re.fullmatch(pat, s) is not None
+
+
 def implies(a, b):
     return (not a) or b
 
 
 def spec_env(*modules):
-    env = {'implies': implies}
+    env = {'implies': implies, 're_match': re_match}
     for m in modules:
         mod = importlib.import_module(m) if isinstance(m, str) else m
         for k, v in vars(mod).items():
@@ -53,6 +58,91 @@ def check_pure(contract, fn, kwargs, env):
             return {'observed': f'returned {result!r}; clause raised {type(ex).__name__}: {ex}', 'required': en, 'clause': k}
         if not ok:
             return {'observed': f'returned {result!r}', 'required': en, 'clause': k}
+    return None
+
+
+_OLD = __import__('re').compile(r'\bold\((\w+)\)')
+
+
+def _holds_raise(contract, ex, e):
+    if contract.raises is None:
+        return None
+    for en, cond in contract.raises.items():
+        base = en[4:] if en.startswith('any:') else en
+        cls = _exc_class(base)
+        if cls is not None and isinstance(ex, cls):
+            if eval(_OLD.sub(r'__old_\1', cond), e):
+                return None
+            return {'observed': f'raised {type(ex).__name__}: {ex}', 'required': f'{en} only when: {cond}'}
+    return {'observed': f'raised {type(ex).__name__}: {ex}', 'required': f'only {sorted(contract.raises)} may escape'}
+
+
+def check_method(contract, obj, method, kwargs, env, ghosts=None):
+    """Evaluate a method contract on a real object.  `ghosts` maps ghost names to getters of their current value;
+    old(g) in a clause refers to the value before the call.  Heap-valued clauses see the real object as `self`."""
+    ghosts = ghosts or {}
+    e = dict(env)
+    e.update(kwargs)
+    e['self'] = obj
+    for g, get in ghosts.items():
+        e[g] = get()
+        e['__old_' + g] = e[g]
+    for nm, tx in contract.lets.items():
+        e[nm] = eval(tx, e)
+    for r in contract.requires:
+        if not eval(r, e):
+            return None
+    try:
+        result = getattr(obj, method)(**kwargs)
+    except BaseException as ex:     # noqa
+        for g, get in ghosts.items():
+            e[g] = get()
+        return _holds_raise(contract, ex, e)
+    for g, get in ghosts.items():
+        e[g] = get()
+    e['result'] = result
+    for k, en in enumerate(contract.ensures):
+        try:
+            ok = eval(_OLD.sub(r'__old_\1', en), e)
+        except BaseException as ex:  # noqa
+            return {'observed': f'returned {result!r:.200}; clause raised {type(ex).__name__}: {ex}', 'required': en, 'clause': k}
+        if not ok:
+            return {'observed': f'returned {result!r:.300}', 'required': en, 'clause': k}
+    return None
+
+
+def validate_axioms(reg, env, alphabet, maxlen):
+    """bounded validation of the assumed string-library facts against CPython (an assumption check, not a proof)"""
+    import itertools
+    strings = ['']
+    for n in range(1, maxlen + 1):
+        strings += [''.join(c) for c in itertools.product(alphabet, repeat=n)]
+    for name, text, vars_, source, quantified in reg.axioms:
+        names = list(vars_)
+        doms = []
+        for v in names:
+            t = vars_[v]
+            if t == 'Str':
+                doms.append(strings if len(names) <= 1 else strings[:260])
+            elif t == 'Bytes':
+                doms.append([b'', b'a', b'ab', b'\n'])
+            elif t == 'Seq[Bytes]':
+                doms.append([[], [b''], [b'a'], [b'a', b'b'], [b'', b'x', b'']])
+            elif t == 'Seq[Str]':
+                doms.append([[], [''], ['a'], ['a', 'b'], ['', ' ', 'a b']])
+            elif t == 'Int':
+                doms.append(list(range(-2, 5)))
+            else:
+                return {'observed': f'axiom {name}: no native domain for type {t}', 'required': 'validated axiom'}
+        for combo in itertools.product(*doms):
+            e = dict(env)
+            e.update(zip(names, combo))
+            try:
+                ok = eval(text, e)
+            except Exception as ex:
+                ok = False
+            if not ok:
+                return {'observed': f'axiom {name} is false for {dict(zip(names, combo))!r}', 'required': text}
     return None
 
 
